@@ -233,11 +233,25 @@ class InjectedTwoArgs(Exception):
         self.code, self.params = code, params
 
 
-FAULT_KINDS = {"plain": InjectedFault, "value": InjectedValueError, "arith": InjectedArithmetic, "twoargs": InjectedTwoArgs, "interrupt": None}
+FAULT_KINDS = {"plain": InjectedFault, "value": InjectedValueError, "arith": InjectedArithmetic, "twoargs": InjectedTwoArgs, "interrupt": None, "local": None}
 RAISED = []     # the very instances raised in this process (identity is part of "propagates that exception")
 
 
+def _local_exception_class():
+    class LocalFault(Exception):
+        """Defined inside a function (like an exception class written in a notebook cell): cannot be pickled by reference."""
+
+    return LocalFault
+
+
+LOCAL_FAULT = _local_exception_class()
+
+
 def make_fault(kind, msg):
+    if kind == "local":
+        e = LOCAL_FAULT(msg)
+        RAISED.append(e)
+        return e
     if kind == "interrupt":
         e = InjectedInterrupt(msg)
     elif kind == "twoargs":
@@ -248,7 +262,7 @@ def make_fault(kind, msg):
     return e
 
 
-INJECTED = (InjectedFault, InjectedInterrupt, InjectedValueError, InjectedArithmetic, InjectedTwoArgs)
+INJECTED = (InjectedFault, InjectedInterrupt, InjectedValueError, InjectedArithmetic, InjectedTwoArgs, LOCAL_FAULT)
 
 
 class FailAtCall:
